@@ -31,7 +31,9 @@ class Conclusion(SymbolicExpression[T], ABC):
 
         self.var, self.value = self._update_children_(self.var, self.value)
 
-        self.value._is_inferred_ = True
+        if not (isinstance(self.value, Variable) and self.value._domain_source_ is not None):
+            # (a variable that ranges over a given domain stays what it is: concluding it adds the existing object)
+            self.value._is_inferred_ = True
 
         self._node_.weight = RDREdge.Then
 
